@@ -181,8 +181,19 @@ class Check:
             pending = pending[done + 1:]
         return results
 
-    def harness(self, mode, cases, **kw):
-        return self.run_lines(HARNESS_BIN, mode, cases, **kw)
+    def harness(self, mode, cases, parallel=None, **kw):
+        """runs the implementation on the cases; heavy modes are spread over worker processes"""
+        if parallel is None:
+            parallel = 16 if mode in ("pipe", "multi") and len(cases) > 8 else 1
+        if parallel <= 1:
+            return self.run_lines(HARNESS_BIN, mode, cases, **kw)
+        from concurrent.futures import ThreadPoolExecutor
+        chunks = [cases[i::parallel] for i in range(parallel)]
+        out = {}
+        with ThreadPoolExecutor(max_workers=parallel) as ex:
+            for r in ex.map(lambda c: self.run_lines(HARNESS_BIN, mode, c, **kw) if c else {}, chunks):
+                out.update(r)
+        return out
 
     def driver(self, mode, cases, **kw):
         return self.run_lines(DRIVER_BIN, mode, cases, **kw)
